@@ -56,7 +56,8 @@ def run(tier, replay_path=None):
         # shapes, container renames, both derives), a seeded sample of the others
         keep = [c for c in ty1 if c["def"]["kind"] != "enum" or c["def"]["vs"][0]["n"] in ("Table", "XMLHttp2Request")]
         rest = [c for c in ty1 if not (c["def"]["kind"] != "enum" or c["def"]["vs"][0]["n"] in ("Table", "XMLHttp2Request"))]
-        cases = sw + units + (keep + sample(rest, 300, rng) if q else ty1) + sample(ty2, 3000, rng) + simc
+        # thorough: rustc needs ~50 ms per type; 6 000 types keep the compile under ten minutes
+        cases = sw + units + (keep + sample(rest, 300, rng) if q else sample(ty1, 2500, rng)) + sample(ty2, 3000 if q else 2000, rng) + (simc if q else sample(simc, 600, rng))
         seen = set(); uniq = []
         for c in cases:
             k = json.dumps(c["def"], sort_keys=True)
